@@ -134,10 +134,12 @@ class SimulatedExecutionEnvironment(ExecutionEnvironment):
         symbol_to_fnode = {}
         cnt = 0
         for hf in problem.hidden_fluents:
-            if not hf.is_not():
+            # a hidden literal is either a fluent or its negation
+            fluent_exp = hf.arg(0) if hf.is_not() else hf
+            if fluent_exp not in fnode_to_symbol:
                 s = Symbol(f"v_{cnt}")
-                fnode_to_symbol[hf] = s
-                symbol_to_fnode[s] = hf
+                fnode_to_symbol[fluent_exp] = s
+                symbol_to_fnode[s] = fluent_exp
                 cnt += 1
 
         constraints = []
